@@ -96,6 +96,9 @@ func newIdxScenario(ids []string) *idxScenario {
 	sc.rolesIdx = sc.store.AddSetIndex(rolesSym)
 
 	sc.names = []string{"A", "AB", ""} // one name is a prefix of the other on purpose
+	if len(ids) >= 3 {
+		sc.names = []string{"A", "AB", "B", ""} // three entities can only coexist with three non-empty unique values
+	}
 	sc.aliases = []*string{nil, world.StrP("X"), world.StrP("")}
 	sc.roleAtoms = []string{"r", "rs"}
 	sc.roleSets = [][]string{nil, {"r"}, {"rs"}, {"r", "rs"}}
@@ -422,6 +425,35 @@ func C03(tier string) int {
 		sc3 := newIdxScenario([]string{"e1", "e1x", "e2"})
 		runE1(rep, sc3, explore.Config{Programs: explore.SingleOps(len(sc3.Ops())), MaxTrans: 6_000_000})
 	}
+	// three entities alive at once (three holders of one set value, an entry in the middle of an index
+	// bucket): a restricted view of the 3-id alphabet - every id keeps its own name, alias stays null -
+	// explored to closure with one and two operations per transaction
+	sc3v := newIdxScenario([]string{"e1", "e1x", "e2"})
+	own := map[string]string{"e1": `"A"`, "e1x": `"AB"`, "e2": `"B"`}
+	var view []int
+	for i, o := range sc3v.Ops() {
+		n := o.Name
+		if strings.HasPrefix(n, "delete(") {
+			view = append(view, i)
+			continue
+		}
+		if !(strings.HasPrefix(n, "create(") || strings.HasPrefix(n, "update(") || strings.HasPrefix(n, "patch[roles](")) || !strings.Contains(n, "alias=null") {
+			continue
+		}
+		id := n[strings.Index(n, "(")+1 : strings.Index(n, ",")]
+		if strings.Contains(n, "name="+own[id]+",") || (strings.HasPrefix(n, "patch[roles](") && strings.Contains(n, `name="A",`)) {
+			view = append(view, i)
+		}
+	}
+	var vprogs [][]int
+	for _, a := range view {
+		vprogs = append(vprogs, []int{a})
+		for _, b := range view {
+			vprogs = append(vprogs, []int{a, b})
+		}
+	}
+	rep.Set("three_entity_view_alphabet", len(view))
+	runE1(rep, &renamed{Scenario: sc3v, name: "S_idx[3 ids alive at once, restricted view, 1-2 ops per tx]"}, explore.Config{Programs: vprogs, SkipRejectedPrefix: true})
 	return rep.Finish()
 }
 
